@@ -8,7 +8,7 @@ PROP = {
     "trusted_base": BASE_TB + [
         "Go strings modelled as lists of Unicode scalar values (strings that are not valid UTF-8 are outside the model); Go maps as association lists with strictly increasing keys",
         "float64: finite doubles are carried as Go's %v text (strconv shortest formatting and ParseFloat are trusted to invert each other); "
-        "float64 -> int32/int64 of integer literals is exact integer arithmetic (round to nearest even, 53 bits), out-of-range conversions give the amd64 result",
+        "integers are read with strconv.ParseInt from the json.Number literal (modelled exactly); ParseFloat range errors of bare numbers are not modelled",
         "time.Time carried as its RFC3339Nano text; the model accepts exactly what time.Format prints for years 0..9999",
         "strconv.IsPrint tables copied from go1.25.0 (tools/gen_isprint.py); encoding/json's nesting limit and ParseFloat range errors not modelled",
         "dedup counters: SetYSON recomputes the value from the HLL registers; the model keeps the value (generators only use consistent counters exported by FromCRDT)",
@@ -23,7 +23,7 @@ PROP = {
     "level_note": "Trusted: Lean kernel; the hand-written model agrees with the Go code only as far as the `yson` engine's values exercise it.",
     "technique": "Lean 4 proof (structural induction over YSON values) + differential replay of yson.Marshal/Unmarshal and json.SetYSON/yson.FromCRDT",
     "partial": [
-        "Unmarshal(Marshal(v)) = v is false of the code: proved under YsonSafe; 6 unsafe shapes remain listed as known findings with witnesses (long precision, type member, Go-only escapes, unescaped keys, non-finite doubles, date range); text inside string literals and the empty dedup counter were repaired by /repo 0cf3884e and are now inside the theorem (their old failure is kept as a witness about the OLD pre-pass, Model/YsonV0.lean)",
+        "Unmarshal(Marshal(v)) = v is false of the code: proved under YsonSafe; 5 unsafe shapes remain listed as known findings with witnesses (type member, Go-only escapes, unescaped keys, non-finite doubles, date range); repaired and now inside the theorem: text inside string literals and the empty dedup counter (/repo 0cf3884e), Long precision beyond 2^53 and the panics on `type` look-alikes (UseNumber / checked-assertions fix; unmarshal_never_panics holds for every text). Their old failures are kept as witnesses about the OLD code (Model/YsonV0.lean: V0, V0Float)",
         "documents are explored by random multi-replica histories through the json API, not by a CRDT model: that every reachable export is RebuildSafe is tested (oracle), not proved",
     ],
     "not_modelled": [
